@@ -272,12 +272,18 @@ class Delete(AbstractCommand):
                     element.eGet(reference).extend(content)
                 else:
                     element.eSet(reference, content)
-        for element, v in self.inverse_references.items():
-            for i, obj, reference in v:
-                if reference.many:
-                    obj.eGet(reference).insert(i, element)
-                else:
-                    obj.eSet(reference, element)
+        # the recorded positions are those before the deletion: when several
+        # deleted objects go back into one collection, the lower position
+        # must be filled first
+        entries = [(i, obj, reference, element)
+                   for element, v in self.inverse_references.items()
+                   for i, obj, reference in v]
+        for i, obj, reference, element in sorted(entries,
+                                                 key=lambda entry: entry[0]):
+            if reference.many:
+                obj.eGet(reference).insert(i, element)
+            else:
+                obj.eSet(reference, element)
 
     def redo(self):
         self.do_execute()
